@@ -342,7 +342,7 @@ func checkC15Method(r *core.Run, a *analysis, info *types.Info, f *fn, recvField
 		}
 		return true
 	})
-	stmts := f.Decl.Body.List
+	stmts := c15Desugar(f.Decl.Body.List)
 	// the forwarding call must be the last top-level statement
 	var last *ast.CallExpr
 	if len(stmts) > 0 {
@@ -487,4 +487,111 @@ func checkC15Method(r *core.Run, a *analysis, info *types.Info, f *fn, recvField
 		r.Check("C15.redispatch", name+"|has "+callS, f.Decl.Pos(), found, "the redispatch "+callS+" named by the property is missing from "+ev)
 	}
 	_ = constant.MakeBool
+}
+
+// c15Desugar rewrites the top-level statement list of an event method into the shape the obligations are stated
+// over (guards that end in return, then the straight-line tail), for the equivalent ways of writing it:
+//   - `switch x { case A: S; return  case B: T; return }`  ->  `if x == A { S; return }; if x == B { T; return }`
+//     (tagless switches likewise; a default clause of a switch in last position becomes the tail);
+//   - a final `if c { A } else { B }`  ->  `if c { A; return }; B`;
+//   - `if !c { A; return }; B` (B the rest of the method)  ->  `if c { B; return }; A`.
+// Every rewrite preserves the set of paths and the statements executed on each.
+func c15Desugar(list []ast.Stmt) []ast.Stmt {
+	endsInReturn := func(b []ast.Stmt) bool {
+		if len(b) == 0 {
+			return false
+		}
+		ret, ok := b[len(b)-1].(*ast.ReturnStmt)
+		return ok && len(ret.Results) == 0
+	}
+	withReturn := func(b []ast.Stmt) []ast.Stmt {
+		if endsInReturn(b) {
+			return b
+		}
+		return append(append([]ast.Stmt{}, b...), &ast.ReturnStmt{})
+	}
+	withoutReturn := func(b []ast.Stmt) []ast.Stmt {
+		if endsInReturn(b) {
+			return b[:len(b)-1]
+		}
+		return b
+	}
+	for round := 0; round < 8; round++ {
+		changed := false
+		var out []ast.Stmt
+		for i := 0; i < len(list) && !changed; i++ {
+			st := list[i]
+			isLast := i == len(list)-1
+			switch s := st.(type) {
+			case *ast.SwitchStmt:
+				if s.Init != nil {
+					break
+				}
+				ok := true
+				var ifs []ast.Stmt
+				var deflt []ast.Stmt
+				hasDefault := false
+				for _, c := range s.Body.List {
+					cc := c.(*ast.CaseClause)
+					if cc.List == nil {
+						hasDefault = true
+						deflt = cc.Body
+						if c != s.Body.List[len(s.Body.List)-1] {
+							ok = false
+						}
+						continue
+					}
+					if len(cc.List) != 1 || (!endsInReturn(cc.Body) && !isLast) {
+						ok = false
+						break
+					}
+					for _, b := range cc.Body {
+						if br, isBr := b.(*ast.BranchStmt); isBr && br.Tok == token.FALLTHROUGH {
+							ok = false
+						}
+					}
+					var cond ast.Expr = cc.List[0]
+					if s.Tag != nil {
+						cond = &ast.BinaryExpr{X: s.Tag, Op: token.EQL, Y: cc.List[0], OpPos: cc.Pos()}
+					}
+					ifs = append(ifs, &ast.IfStmt{If: cc.Pos(), Cond: cond, Body: &ast.BlockStmt{Lbrace: cc.Pos(), List: withReturn(cc.Body)}})
+				}
+				if !ok || (hasDefault && !isLast) {
+					break
+				}
+				out = append(append(out, list[:i]...), ifs...)
+				out = append(out, deflt...)
+				out = append(out, list[i+1:]...)
+				changed = true
+			case *ast.IfStmt:
+				if s.Init != nil {
+					break
+				}
+				if s.Else != nil && isLast {
+					var tail []ast.Stmt
+					switch e := s.Else.(type) {
+					case *ast.BlockStmt:
+						tail = e.List
+					default:
+						tail = []ast.Stmt{e}
+					}
+					out = append(append(out, list[:i]...), &ast.IfStmt{If: s.If, Cond: s.Cond, Body: &ast.BlockStmt{Lbrace: s.Body.Lbrace, List: withReturn(s.Body.List)}})
+					out = append(out, tail...)
+					changed = true
+					break
+				}
+				if u, isNot := stripParens(s.Cond).(*ast.UnaryExpr); isNot && u.Op == token.NOT && s.Else == nil && endsInReturn(s.Body.List) && !isLast {
+					rest := list[i+1:]
+					out = append(append(out, list[:i]...), &ast.IfStmt{If: s.If, Cond: u.X, Body: &ast.BlockStmt{Lbrace: s.Body.Lbrace, List: withReturn(rest)}})
+					out = append(out, withoutReturn(s.Body.List)...)
+					changed = true
+				}
+			}
+		}
+		if !changed {
+			break
+		}
+		list = out
+	}
+	return list
 }
